@@ -1240,7 +1240,6 @@ def run(ck: core.Check):
     ]
     ck.partial_gap = [
         "reference resolution (one name one uuid, equal to the flow's uuid) is not proved in Lean here (needs C06's UUID-dictionary model); it is evaluated directly on every real output",
-        "campaign_message_lang_full (message keyed by its base language) holds only for blank/default base_language: F-C19-a, negative witness message_lang_needs_default",
         "trigger_match_type_full (every invalid match type rejected) holds only for keyword triggers: negative witness match_type_needs_keyword_trigger",
         "cells → row models (RowParser/CellParser) is C07-C09's theorem; here only tied (driver glue: strip, List[str] cells via the C08 model)",
     ]
